@@ -7,10 +7,13 @@ import (
 	"errors"
 	"fmt"
 	"io"
+	"mime"
+	"mime/multipart"
 	"net/http"
 	"net/url"
 	"reflect"
 	"sort"
+	"strconv"
 	"strings"
 
 	"github.com/getkin/kin-openapi/openapi3"
@@ -148,6 +151,17 @@ func parts(err error) []string {
 				out = append(out, "request")
 			}
 		default:
+			// wrapped errors: look through the wrapper(s)
+			if u, ok := e.(interface{ Unwrap() []error }); ok {
+				for _, m := range u.Unwrap() {
+					walk(m)
+				}
+				return
+			}
+			if u := errors.Unwrap(e); u != nil {
+				walk(u)
+				return
+			}
 			out = append(out, fmt.Sprintf("other:%T", e))
 		}
 	}
@@ -250,6 +264,12 @@ func (e *env) request(world *World, docBytes []byte, q ReqSpec, again bool) (han
 	s, log, res := e.s, e.log, e.res
 	handler = func() {}
 	orig := []byte(q.Body)
+	if q.BodyMode != "stream" && q.BodyMode != "empty" {
+		orig = nil // no body is sent in the other modes, whatever the (possibly shrunken) spec still carries
+	}
+	if q.BodyMode == "empty" {
+		orig = []byte{}
+	}
 	tag := ""
 	if again {
 		tag = "again/"
@@ -438,7 +458,10 @@ func (e *env) request(world *World, docBytes []byte, q ReqSpec, again bool) (han
 	if faultSeen {
 		// the library observed a stream error (every reader of the original stream is the library): it must not accept
 		for i := range s.Vals {
-			if verdicts[i] == nil && strings.HasPrefix(st.FaultSeenBy, fmt.Sprintf("validator#%d", i+1)) {
+			// (only where the verdict needs the bytes: a declared request body that is validated. Where
+			// nothing has to look at the body, accepting is what the property demands.)
+			needsBody := s.Doc.BodyKind != "" && !s.Vals[i].ExcludeBody
+			if needsBody && verdicts[i] == nil && strings.HasPrefix(st.FaultSeenBy, fmt.Sprintf("validator#%d", i+1)) {
 				violate("C07", "fault-accept", "accept-after-stream-error", fmt.Sprintf("validation #%d accepted although a Read it issued returned %q", i+1, q.Chunk.FaultKind))
 			}
 		}
@@ -464,17 +487,20 @@ func (e *env) request(world *World, docBytes []byte, q ReqSpec, again bool) (han
 				fmt.Sprintf("security part accepted=%v but the requirement semantics say %v (operation-level %q, document-level %q, callback outcomes %v)", gotSecOK, wantSecOK, s.Doc.SecOp, s.Doc.SecDoc, s.Auth))
 		}
 		res.Probe(fmt.Sprintf("security-model-%v", wantSecOK))
-		// callback invocations of validation #1 = the neutral run's
-		n1 := calls
-		if len(s.Vals) > 1 {
-			// calls of later validations follow; compare the prefix
-			if len(n1) > len(nCalls) {
-				n1 = n1[:len(nCalls)]
+		// callback invocations: every call is about a (scheme, scopes) pair of the effective requirement
+		// list (order and number are not part of the property: AND over the schemes of a requirement is
+		// order-independent and may stop at the first rejection)
+		allowed := map[authCall]bool{}
+		for _, c := range AllowedAuthCalls(s.Doc) {
+			allowed[authCall{c[0], c[1]}] = true
+		}
+		for _, c := range calls {
+			if !allowed[c] {
+				violate("C07", "auth-calls", "auth-call-outside-requirements", fmt.Sprintf("the callback was asked about scheme %q with scopes %q, which no requirement in effect lists (operation-level %q, document-level %q)", c.Scheme, c.Scopes, s.Doc.SecOp, s.Doc.SecDoc))
+				break
 			}
 		}
-		if !reflect.DeepEqual(n1, nCalls) && !(len(n1) == 0 && len(nCalls) == 0) {
-			violate("C07", "auth-calls", "auth-calls", fmt.Sprintf("callback invocations %v; neutral run %v", n1, nCalls))
-		}
+		_ = nCalls
 		if authBodyBad != "" {
 			violate("C07", "auth-body", "auth-body-truncated", authBodyBad)
 		}
@@ -506,11 +532,15 @@ func (e *env) request(world *World, docBytes []byte, q ReqSpec, again bool) (han
 		skipAll := true
 		defaultsBody := false
 		lastDefaultsAccepted := -1
+		defaultsOn := false // default-setting reached the body in some validation (any body kind)
 		for i, v := range s.Vals {
 			if !v.SkipDefaults {
 				skipAll = false
 				if !v.ExcludeBody && s.Doc.BodyKind == "json" {
 					defaultsBody = true
+				}
+				if !v.ExcludeBody {
+					defaultsOn = true
 				}
 				if verdicts[i] == nil {
 					lastDefaultsAccepted = i
@@ -551,6 +581,10 @@ func (e *env) request(world *World, docBytes []byte, q ReqSpec, again bool) (han
 						res.Probe("body-nothing-to-default")
 					}
 				}
+			case !defaultsBody && defaultsOn && e.flatBodyWithDefaults(req, orig, final):
+				// a form/multipart body re-encoded with exactly the original fields plus the schema's defaults:
+				// what C13 asks for (not produced by the pinned tree, see known finding K2)
+				res.Probe("flat-body-defaults-applied")
 			case !defaultsBody:
 				violate("C13", "R1-readable", bodySig("body-altered"), fmt.Sprintf("forwarded body differs from the received one: got %d bytes %q, sent %d bytes %q", len(final), simfw.Trunc(string(final), 120), len(orig), simfw.Trunc(string(orig), 120)))
 			default:
@@ -604,6 +638,78 @@ func (e *env) request(world *World, docBytes []byte, q ReqSpec, again bool) (han
 	return handler
 }
 
+// flatBodyWithDefaults: final is a form / multipart encoding of exactly the
+// fields of orig plus defaulted properties that orig lacks.
+func (e *env) flatBodyWithDefaults(req *http.Request, orig, final []byte) bool {
+	d := e.s.Doc
+	if d.Body == nil {
+		return false
+	}
+	decode := func(b []byte) (map[string][]string, bool) {
+		switch d.BodyKind {
+		case "form":
+			v, err := url.ParseQuery(string(b))
+			return v, err == nil
+		case "multipart":
+			_, params, err := mime.ParseMediaType(req.Header.Get("Content-Type"))
+			if err != nil {
+				return nil, false
+			}
+			out := map[string][]string{}
+			mr := multipart.NewReader(bytes.NewReader(b), params["boundary"])
+			for {
+				part, err := mr.NextPart()
+				if err == io.EOF {
+					return out, true
+				}
+				if err != nil {
+					return nil, false
+				}
+				val, err := io.ReadAll(part)
+				if err != nil {
+					return nil, false
+				}
+				out[part.FormName()] = append(out[part.FormName()], string(val))
+			}
+		}
+		return nil, false
+	}
+	of, ok1 := decode(orig)
+	ff, ok2 := decode(final)
+	if !ok1 || !ok2 {
+		return false
+	}
+	expect := map[string][]string{}
+	for k, v := range of {
+		expect[k] = v
+	}
+	added := false
+	for name, n := range d.Body.Props {
+		if _, has := of[name]; !has && n.Default != nil {
+			got, present := ff[name]
+			if !present || len(got) != 1 || !sameScalar(got[0], n.Default) {
+				return false
+			}
+			expect[name] = got
+			added = true
+		}
+	}
+	return added && reflect.DeepEqual(map[string][]string(ff), expect)
+}
+
+// sameScalar: the text is a rendering of the default value (numbers by value,
+// everything else by its plain text).
+func sameScalar(text string, def any) bool {
+	if text == fmt.Sprint(def) {
+		return true
+	}
+	if f, ok := def.(float64); ok {
+		g, err := strconv.ParseFloat(text, 64)
+		return err == nil && g == f
+	}
+	return false
+}
+
 func rewriteFailed(err error) bool {
 	switch x := err.(type) {
 	case openapi3.MultiError:
@@ -613,7 +719,10 @@ func rewriteFailed(err error) bool {
 			}
 		}
 	case *openapi3filter.RequestError:
-		return x.RequestBody != nil && x.Reason == "rewriting failed"
+		// structure, not message text: a body error caused by "unsupported format" for a body kind whose
+		// decoding IS supported can only come from writing the body back
+		var pe *openapi3filter.ParseError
+		return x.RequestBody != nil && errors.As(x.Err, &pe) && pe.Kind == openapi3filter.KindUnsupportedFormat
 	}
 	return false
 }
@@ -668,6 +777,20 @@ func (e *env) checkParamDefaults(before, after snapshot, v ValOpts, violate func
 	for k, vs := range bc {
 		expectC[k] = vs
 	}
+	// numeric defaults that were inserted are compared by value: any rendering of the number is the default
+	numeric := map[string]bool{}
+	isNum := func(p ParamDecl) bool {
+		if arr, ok := p.Default.([]any); ok && len(arr) > 0 {
+			for _, x := range arr {
+				if _, f := x.(float64); !f {
+					return false
+				}
+			}
+			return true
+		}
+		_, f := p.Default.(float64)
+		return f
+	}
 	for _, p := range e.s.Doc.EffectiveParams() {
 		if p.Default == nil {
 			continue
@@ -695,28 +818,43 @@ func (e *env) checkParamDefaults(before, after snapshot, v ValOpts, violate func
 			}
 			if _, present := bq[p.Name]; !present {
 				expectQ[p.Name] = vals
+				numeric["query:"+strings.ToLower(p.Name)] = isNum(p)
 				e.res.Probe("default-query")
 			}
 		case "header":
 			if len(before.Header.Values(p.Name)) == 0 {
 				expectH[http.CanonicalHeaderKey(p.Name)] = vals
+				numeric["header:"+strings.ToLower(p.Name)] = isNum(p)
 				e.res.Probe("default-header")
 			}
 		case "cookie":
 			if _, present := bc[p.Name]; !present {
 				expectC[p.Name] = vals
+				numeric["cookie:"+strings.ToLower(p.Name)] = isNum(p)
 				e.res.Probe("default-cookie")
 			}
 		}
 	}
-	sortVals := func(m map[string][]string) map[string][]string {
+	canonIn := func(in string, m map[string][]string) map[string][]string {
 		out := map[string][]string{}
 		for k, vs := range m {
 			c := append([]string{}, vs...)
+			if numeric[in+":"+strings.ToLower(k)] {
+				for i, x := range c {
+					parts := strings.Split(x, ",")
+					for j, y := range parts {
+						if f, err := strconv.ParseFloat(y, 64); err == nil {
+							parts[j] = strconv.FormatFloat(f, 'g', -1, 64)
+						}
+					}
+					c[i] = strings.Join(parts, ",")
+				}
+			}
 			out[k] = c
 		}
 		return out
 	}
+	sortVals := func(m map[string][]string) map[string][]string { return canonIn("query", m) }
 	// (with the query-exclusion option nothing is asserted about query parameters: the option removes
 	// them from validation, and whether their defaults are still populated is not part of C13)
 	if !v.ExcludeQuery && !reflect.DeepEqual(sortVals(aq), sortVals(expectQ)) {
@@ -732,10 +870,10 @@ func (e *env) checkParamDefaults(before, after snapshot, v ValOpts, violate func
 	}
 	ah := after.Header.Clone()
 	ah.Del("Cookie")
-	if !reflect.DeepEqual(ah, expectH) {
+	if !reflect.DeepEqual(canonIn("header", ah), canonIn("header", expectH)) {
 		violate("C13", "R2-param-defaults", "param-defaults:header", fmt.Sprintf("forwarded headers %v; expected %v", ah, expectH))
 	}
-	if !reflect.DeepEqual(ac, expectC) && !(len(ac) == 0 && len(expectC) == 0) {
+	if !reflect.DeepEqual(canonIn("cookie", ac), canonIn("cookie", expectC)) && !(len(ac) == 0 && len(expectC) == 0) {
 		violate("C13", "R2-param-defaults", "param-defaults:cookie", fmt.Sprintf("forwarded cookies %v; expected %v", ac, expectC))
 	}
 }
@@ -835,7 +973,8 @@ func (e *env) response(world *World, docBytes []byte, p RespSpec, again bool) (r
 		res.Inconcl = "neutral world"
 		return
 	}
-	nin, err := mkInput(nw, io.NopCloser(bytes.NewReader(orig)))
+	nst := simenv.NewStream("neutral", orig, simenv.ChunkPlan{}, nil, nil)
+	nin, err := mkInput(nw, nst)
 	if err != nil {
 		res.Inconcl = "route: " + err.Error()
 		return
@@ -898,8 +1037,11 @@ func (e *env) response(world *World, docBytes []byte, p RespSpec, again bool) (r
 	}
 	if st.FaultFired {
 		res.Fault("respbody_" + p.Chunk.FaultKind)
-		if verr == nil {
-			violate("fault-accept", "accept-after-stream-error", fmt.Sprintf("ValidateResponse accepted although a Read it issued returned %q", p.Chunk.FaultKind))
+		if verr == nil && nst.Reads > 0 && nverr == nil {
+			// (asserted only where the verdict depends on the bytes: the same validation over the intact body had to read it)
+			violate("fault-accept", "accept-after-stream-error", fmt.Sprintf("ValidateResponse accepted although a Read it issued returned %q and the verdict depends on the body", p.Chunk.FaultKind))
+		} else if verr == nil && nverr != nil {
+			violate("fault-accept", "accept-after-stream-error", fmt.Sprintf("ValidateResponse accepted a response whose intact body it rejects, after a Read it issued returned %q", p.Chunk.FaultKind))
 		}
 		return
 	}
